@@ -31,7 +31,7 @@ RULE = ("documents with 1-5 operations and 0-4+ fragments in random definition o
 
 OP_NAMES = ["Op%d", "GetThing%d", "getThing%d", "get_thing_%d", "Q%dx", "UPPER_%d", "x%d", "My_Query%d", "HTTPQuery%d"]
 FLOOR = {"documents": 40, "query-bytes-compared": 150, "mode:all-operations": 40, "mode:selected-operation": 60, "mode:derive-exact": 40, "mode:derive-normalized": 10,
-         "mode:derive-no-match": 40, "mode:derive-needs-normalization": 10, "compiled-bodies": 10, "real-derives-match": 5, "real-derives-no-match": 5, "with-comment-or-cr": 20}
+         "mode:derive-no-match": 40, "mode:derive-needs-normalization": 10, "compiled-bodies": 10, "real-derives-match": 5, "real-derives-no-match": 5, "with-comment-or-cr": 20, "mode:derive-colliding-names": 3}
 
 
 def gen_doc(schema, rng, n_ops):
@@ -153,6 +153,21 @@ def main(run):
         add("derive-no-match", {"mode": "derive", "struct_name": "ZzNoSuchOperation", "normalization": "rust"}, False)
         add("derive-no-match", {"mode": "derive", "struct_name": doc["operations"][0]["name"] + "X"}, False)
         add("derive-no-match", {"mode": "derive", "struct_name": doc["operations"][0]["name"][:-1] or "Q"}, False)
+        if text.startswith("\ufeff"):
+            run.count("with-bom")
+        # two operations whose names coincide under `normalization = "rust"` (`find_thing` / `FindThing`): whichever one a
+        # derive selects, the name it reports and the types it generates must belong to the same operation
+        if len(doc["operations"]) >= 2 and di % 3 == 0:
+            d2 = {"operations": [dict(o) for o in doc["operations"]], "fragments": doc["fragments"]}
+            a, b = d2["operations"][0], d2["operations"][1]
+            a["name"], b["name"] = rng.choice([("find_thing", "FindThing"), ("FindThing", "find_thing"), ("findThing", "FindThing"), ("FindThing", "find_Thing")])
+            plain2, order2 = render_shuffled(d2, rng)
+            text2 = rerender(plain2, rng, rng.choice([None, "lf"]))
+            for sname in ("FindThing",):
+                rid = "d%d.c%d" % (di, len(reqs))
+                reqs.append({"id": rid, "schema_path": sp, "query_text": text2, "options": {"mode": "derive", "struct_name": sname, "normalization": "rust"}, "want": ["inspect"]})
+                meta[rid] = {"doc": d2, "text": text2, "op_order": order2, "schema_path": sp, "schema_text": stext, "schema_ext": ext, "mode": "derive-colliding-names",
+                             "options": reqs[-1]["options"], "name": None}
         if len(compiled) < run.size(12, 120) and not any(names.snake(o["name"]) == o["name"] for o in doc["operations"]):
             compiled.append((di, schema, doc, text, fmt, stext, ext))
     # empty documents in derive mode
@@ -198,12 +213,16 @@ def main(run):
                     if mode == "selected-nonexistent":
                         run.count("unconstrained:nonexistent-name-gives-%s" % ("all" if len(order) == len(want) else len(order)))
                         want = None
+                elif mode == "derive-colliding-names":
+                    want = None     # either of the colliding operations may be selected; it must be ONE, consistently
+                    if len(order) != 1:
+                        sym = "derive generated %d modules" % len(order)
                 else:
                     want = [m["name"]]
                 got = [mods[k].get("OPERATION_NAME") for k in order]
-                if want is not None and got != want:
+                if sym is None and want is not None and got != want:
                     sym = "mode %s: modules for operations %s, expected %s" % (mode, got, want)
-                else:
+                elif sym is None:
                     for k in order:
                         mv = mods[k]
                         run.count("query-bytes-compared")
